@@ -42,7 +42,7 @@ theorem labelGuard_of_safe_inv {S : SC} (C : Checked S) (code : Array Instr) (hc
             unfold codeAt
             simp only [h0, if_true, hcode, Array.getElem?_map, hc, Option.map_some]
             rfl
-          obtain ⟨A, hV, _, _, hmode⟩ := hI
+          obtain ⟨A, hV, _, _, _, hmode⟩ := hI
           simp only [hbt, Bool.false_eq_true, if_false] at hmode
           obtain ⟨_, a, ins, hann, hci, hpend, hconf⟩ := hmode
           rw [hcA] at hci
